@@ -780,3 +780,4 @@ def unit_mix_raw(twin=False):
     r.assumptions += ["stream insertion / extraction of int and double round-trip at the precision set (DBL_DIG-1: not decided here)", "std::map walk model; the option loop of read_raw is executed as one arbitrary iteration"]
     return r
 from props.c10_ext2 import UNITS as _U2; UNITS = UNITS + _U2
+from props.c10_ext3 import UNITS as _U3; UNITS = UNITS + _U3
